@@ -389,6 +389,10 @@ def programs(tier):
     reg("blockwise(np.transpose,'ji',x2x2,'ij')", lambda w, E: p_blockwise_T(w, E, source(w, E, "x", (2, 2))), 3)
     reg("blockwise(np.transpose,'ji',x2x2,'ij')[[1,0]]", lambda w, E: p_take(w, E, p_blockwise_T(w, E, source(w, E, "x", (2, 2))), 0, [1, 0]), 8)
     reg("blockwise(np.transpose,'ji',x2x2,'ij')[a:b,i]", lambda w, E: p_slice(w, p_blockwise_T(w, E, source(w, E, "x", (2, 2))), raw_index(E, (F, "i"))), 6)
+    reg("stack([x2,y2],0)[a:b]", lambda w, E: p_slice(w, _stack_aligned(w, E, 0), raw_index(E, (F,))), 5)
+    reg("stack([x2,y2],1)[:,a:b]", lambda w, E: p_slice(w, _stack_aligned(w, E, 1), raw_index(E, ((0, 0, None), F))), 5)
+    reg("concatenate([x2,y2],0)[a:b:-1]", lambda w, E: p_slice(w, p_concat(w, [source(w, E, "x", (2,)), source(w, E, "y", (2,))], 0), raw_index(E, ((1, 1, -1),))), 6)
+    reg("x2x2.T+y1x1(rechunk inserted by lowering over a transpose)", lambda w, E: _add_T_coarse(w, E), 4)
     # nested-op fusion
     reg("transpose(transpose(x2x1x2,(1,2,0)),(0,2,1))", lambda w, E: p_transpose(w, p_transpose(w, source(w, E, "x", (2, 1, 2)), (1, 2, 0)), (0, 2, 1)), 3)
     reg("transpose(transpose(x2x2,(1,0)),(1,0))", lambda w, E: p_transpose(w, p_transpose(w, source(w, E, "x", (2, 2)), (1, 0)), (1, 0)), 2)
@@ -473,6 +477,13 @@ def _add_broadcast_chain(w, E):
     for i in range(2):
         E.assume(y.node.chunks[0][i] == x.node.chunks[1][i])
     return p_elemwise(w, operator.add, x, p_elemwise(w, operator.neg, y))
+
+
+def _add_T_coarse(w, E):
+    x = source(w, E, "x", (2, 2))
+    xt = p_transpose(w, x, (1, 0))
+    y = source(w, E, "y", (1, 1), shape=xt.node.shape)
+    return p_elemwise(w, operator.add, xt, y)
 
 
 def _add_transpose(w, E):
